@@ -43,10 +43,15 @@ pub struct PairVerdict {
 }
 
 pub fn judge_pair(ls: &LangSet, idx: &HashMap<String, Vec<u64>>, code: &str, a: u64, b: u64, with_conj: bool) -> PairVerdict {
+    judge_pair_spelled(ls, idx, code, a, b, with_conj, &spell::cardinal(code, a), &spell::cardinal(code, b))
+}
+
+/// the same judgement on given spellings of a and b (any claimed variant: `dreissig`, `huitante`, `dezasseis` ...)
+pub fn judge_pair_spelled(ls: &LangSet, idx: &HashMap<String, Vec<u64>>, code: &str, a: u64, b: u64, with_conj: bool, pa: &str, pb: &str) -> PairVerdict {
     let api = ls.api(code);
     let info = spell::info(code);
-    let pa = spell::cardinal(code, a);
-    let pb = spell::cardinal(code, b);
+    let pa = pa.to_string();
+    let pb = pb.to_string();
     let j = if with_conj { format!(" {} ", info.conj) } else { " ".to_string() };
     let text = format!("{}{}{}", pa, j, pb);
     if api.tokens(&text).iter().any(|t| t.nan) {
@@ -67,6 +72,27 @@ pub fn judge_pair(ls: &LangSet, idx: &HashMap<String, Vec<u64>>, code: &str, a: 
     if let Some(cs) = idx.get(&m.join("+")) {
         if cs.iter().any(|c| out == c.to_string()) {
             return PairVerdict { skipped_annotated: false, failure: None, outcome_class: "single-number-with-exactly-those-words" };
+        }
+    }
+    // a spaced spelling (hyphens dropped, split compounds) can be cut differently without any arithmetic: `trente quatre
+    // vingt trois` is as much 34 23 as 30 83.  Accept any sequence of numbers whose spellings, one after the other, are
+    // exactly the spoken words.
+    if pa.contains(' ') || pb.contains(' ') {
+        let nums: Option<Vec<u64>> = out
+            .split_whitespace()
+            .filter(|p| *p != info.conj)
+            .map(|p| if p.bytes().all(|b| b.is_ascii_digit()) && (p == "0" || !p.starts_with('0')) { p.parse::<u64>().ok() } else { None })
+            .collect();
+        if let Some(nums) = nums {
+            fn fits(code: &str, nums: &[u64], m: &[String]) -> bool {
+                match nums.split_first() {
+                    None => m.is_empty(),
+                    Some((c, rest)) => spell::morpheme_variants(code, *c).iter().any(|mv| !mv.is_empty() && m.len() >= mv.len() && m[..mv.len()] == mv[..] && fits(code, rest, &m[mv.len()..])),
+                }
+            }
+            if nums.len() >= 2 && nums.len() <= 4 && nums.iter().all(|c| *c < 10_000) && fits(code, &nums, &m) {
+                return PairVerdict { skipped_annotated: false, failure: None, outcome_class: "other-cut-of-the-same-spaced-words" };
+            }
         }
     }
     PairVerdict {
@@ -154,6 +180,51 @@ pub fn run(ctx: &Ctx) -> Outcome {
                         } else if rep.want_sample() && rng.chance(1, 5000) {
                             rep.sample(jobj! {"lang" => code, "a" => a, "b" => b, "with_conjunction" => with_conj, "outcome" => v.outcome_class});
                         }
+                        // the other claimed spellings of a and b (regional tens, `dreissig`, split forms ...): every distinct
+                        // (variant of a, variant of b) combination in the thorough tier, one rotating combination in quick
+                        let mut va: Vec<String> = spell::cardinal_variants(code, a).into_iter().map(|v| v.text).collect();
+                        let mut vb: Vec<String> = spell::cardinal_variants(code, b).into_iter().map(|v| v.text).collect();
+                        va.dedup();
+                        vb.dedup();
+                        let mut seen = std::collections::BTreeSet::new();
+                        va.retain(|t| seen.insert(t.clone()));
+                        seen.clear();
+                        vb.retain(|t| seen.insert(t.clone()));
+                        let combos = va.len() * vb.len();
+                        if combos > 1 {
+                            let pick = 1 + (a as usize * 7 + b as usize * 3 + ctx.seed as usize) % (combos - 1);
+                            for c in 1..combos {
+                                if ctx.quick() && c != pick {
+                                    continue;
+                                }
+                                let (pa, pb) = (&va[c / vb.len()], &vb[c % vb.len()]);
+                                let mut v = judge_pair_spelled(&ls, idx, code, a, b, with_conj, pa, pb);
+                                rep.eval(hash_bytes(&[code.as_bytes(), pa.as_bytes(), b"|", pb.as_bytes(), &[with_conj as u8]]), !v.skipped_annotated);
+                                rep.count("pair_variant_spellings");
+                                // a purely orthographic variant (same words, same word boundaries: `dreissig` for `dreißig`,
+                                // `catorze` for `quatorze`, `millon` for `millón`) must be read exactly like the primary spelling
+                                if v.failure.is_none() && !v.skipped_annotated {
+                                    let shape = |t: &str| -> String { t.chars().map(|ch| if ch.is_alphabetic() { 'w' } else { ch }).collect::<String>().split('w').filter(|p| !p.is_empty()).collect::<Vec<_>>().join("w") };
+                                    let (qa, qb) = (&va[0], &vb[0]);
+                                    if shape(pa) == shape(qa) && shape(pb) == shape(qb) && spell::morphemes_of_text(code, pa) == spell::morphemes_of_text(code, qa) && spell::morphemes_of_text(code, pb) == spell::morphemes_of_text(code, qb) {
+                                        let j = if with_conj { format!(" {} ", spell::info(code).conj) } else { " ".to_string() };
+                                        let (tv, tp) = (format!("{}{}{}", pa, j, pb), format!("{}{}{}", qa, j, qb));
+                                        let (ov, op) = (ls.api(code).replace(&tv, 0.0), ls.api(code).replace(&tp, 0.0));
+                                        rep.count("pair_orthographic_variants_compared");
+                                        if ov != op && !ls.api(code).tokens(&tp).iter().any(|t| t.nan) {
+                                            v.failure = Some(format!("the orthographic variant {:?} is rewritten {:?} but the primary spelling {:?} is rewritten {:?}", tv, ov, tp, op));
+                                        }
+                                    }
+                                }
+                                if let Some(msg) = v.failure {
+                                    rep.violation(
+                                        &format!("{}:pair-variant:{}:{}:{}", code, if with_conj { "conj" } else { "space" }, nclass(a), nclass(b)),
+                                        jobj! {"kind" => "pair", "lang" => code, "a" => a, "b" => b, "with_conj" => with_conj, "pa" => pa.as_str(), "pb" => pb.as_str()},
+                                        format!("[{} a={} b={} conj={}] {}", code, a, b, with_conj, msg),
+                                    );
+                                }
+                            }
+                        }
                     }
                 }
             }
@@ -205,7 +276,7 @@ pub fn run(ctx: &Ctx) -> Outcome {
             }
         }
     });
-    let rule = format!("pairs: every (a,b) in [0,99]^2 x {{space, conjunction}} x 7 languages (exhaustive, 140 000 cases), allowed outcomes = both numbers in order, the zero-prefixed form for a = 0, or the digits of a c < 10000 whose morpheme sequence (any claimed variant, conjunction ignored) equals morphemes(a)+morphemes(b); dictation: every digit string of length <= {} (English also with the zeros dictated as `o`) and random ones of length 5..8, expected = grouping rule of the statement; texts whose ambiguity annotation flags a token are skipped and counted", max_len_exhaustive);
+    let rule = format!("pairs: every (a,b) in [0,99]^2 x {{space, conjunction}} x 7 languages in the primary spelling (exhaustive, 140 000 cases) and in one rotating combination of the other claimed spellings (thorough: every combination), allowed outcomes = both numbers in order, the zero-prefixed form for a = 0, or the digits of a c < 10000 whose morpheme sequence (any claimed variant, conjunction ignored) equals morphemes(a)+morphemes(b), or (spaced variant spellings only) another cut of the same words into numbers; dictation: every digit string of length <= {} (English also with the zeros dictated as `o`) and random ones of length 5..8, expected = grouping rule of the statement; texts whose ambiguity annotation flags a token are skipped and counted", max_len_exhaustive);
     finish(ctx, rep, &rule, &["the conjunction is ignored when comparing morpheme sequences (the library documents tolerance for a missing/extra conjunction; the property is about arithmetic fusion)"], vec![("pairs_exhaustive".into(), J::Bool(true))])
 }
 
@@ -220,6 +291,9 @@ pub fn replay(case: &J) -> Vec<String> {
             let b = case.get("b").and_then(|x| x.as_i64()).unwrap_or(0) as u64;
             let wc = case.get("with_conj").and_then(|x| x.as_bool()).unwrap_or(false);
             let idx = build_index(&code);
+            if let (Some(pa), Some(pb)) = (case.get("pa").and_then(|x| x.as_str()), case.get("pb").and_then(|x| x.as_str())) {
+                return judge_pair_spelled(&ls, &idx, &code, a, b, wc, pa, pb).failure.into_iter().collect();
+            }
             judge_pair(&ls, &idx, &code, a, b, wc).failure.into_iter().collect()
         }
     }
